@@ -14,7 +14,7 @@
     start / run / run-and-continue / run-continue-and-wait / run_session /
     reset / close / signal calls from any number of tasks, valid or refused,
     under every interleaving of the tasks, the run task and the child's exit. *)
-From NL Require Import Life.Model Life.LockInv Life.FsmInv Life.Hist Life.ContFlag Life.ContTie.
+From NL Require Import Life.Model Life.LockInv Life.FsmInv Life.Hist Life.ContFlag Life.ContTie Life.ContSys.
 Open Scope Z_scope.
 
 (** The structural invariant ([cont_inv], Life/ContFlag.v):
@@ -241,9 +241,15 @@ Proof. vm_compute. repeat split; reflexivity. Qed.
 (** Continuous._requested, for ALL environments: up to the `yield` it is the model's entry
     ([entry_m]: publish True, register (t, false)), counter + 1, ContextVar = own plugin (the
     second argument of [e_interf]); after the body: accepted -> nothing; raised (any class
-    but the interpreter's own [XStuck]) -> exactly the plugin of this request unregistered,
-    counter - 1, flag re-published from the counter unless closed, exception re-raised; the
-    ContextVar restored on every path ([after_with]) *)
+    but the interpreter's own [XStuck]) -> if the plugin of this request is still registered:
+    exactly that ONE plugin unregistered, counter - 1, flag re-published from the counter
+    unless closed, exception re-raised; if it is gone (its run has finished meanwhile and
+    on_finished has unregistered it): pluggy's AssertionError leaves `unregister`, disable()
+    is NOT called (the request has been uncounted by on_finished), that exception propagates;
+    the ContextVar is restored on every path ([after_with]).  Cancellation at the `yield` is
+    the case [XBaseOnly]; Life/Model.v has no cancel label, so that branch is tied to no model
+    transition.  The handler's `await self.disable()` is atomic (PubSubItem.publish never
+    suspends: C08's atomicity check), so no cancellation is delivered inside it. *)
 Theorem C16_tie_requested_all_env : forall e cur sh fr,
   env_ok e -> coherent sh -> cont_closed (sh_m sh) = false ->
   let t := fr_me fr in
@@ -254,7 +260,9 @@ Theorem C16_tie_requested_all_env : forall e cur sh fr,
   | None => (Fin, sh2, after_with fr)
   | Some XStuck => (Exc XStuck, sh2, after_with fr)
   | Some x =>
-      (Exc x, disable_sh (set_m sh2 (unreg_m (sh_m sh2) t (e_own_started e))), after_with fr)
+      (if has_plugin (sh_m sh2) t (e_own_started e)
+       then (Exc x, disable_sh (set_m sh2 (unreg_m (sh_m sh2) t (e_own_started e))), after_with fr)
+       else (Exc XOrdinary, sh2, after_with fr))
   end.
 Proof. exact requested_all_env. Qed.
 
@@ -274,7 +282,9 @@ Theorem C16_tie_entry : forall s t c e cur fr n,
         match e_exc e CBody with
         | None => (Fin, sh2, after_with fr)
         | Some XStuck => (Exc XStuck, sh2, after_with fr)
-        | Some x => (Exc x, disable_sh (set_m sh2 (unreg_m (sh_m sh2) t (e_own_started e))), after_with fr)
+        | Some x => (if has_plugin (sh_m sh2) t (e_own_started e)
+       then (Exc x, disable_sh (set_m sh2 (unreg_m (sh_m sh2) t (e_own_started e))), after_with fr)
+       else (Exc XOrdinary, sh2, after_with fr))
         end)) /\
   (cont_closed s = true ->
      do_call s t c = finish_call s0 t c RRuntimeError /\
@@ -282,8 +292,11 @@ Theorem C16_tie_entry : forall s t c e cur fr n,
 Proof. exact tie_entry. Qed.
 
 (** the refusal path against the model's [refuse] (MachineError = an ordinary exception,
-    raised before the run exists: the plugin is unstarted), in whatever state [release s] the
-    refusal happens; the counter stays the length of the registry *)
+    raised before the run exists: the plugin is unstarted).  ONE-STEP link: the interference
+    hypothesis says "whatever happened since the request was made, the refusal finds the state
+    [release s] with the counter = the length of its registry"; that the counter IS that
+    length along every history is [C16_tie_sys_flag] (for the regenerated code) -- it is an
+    assumption here, as are NoDup / In (theorems on reachable model states: next entry) *)
 Theorem C16_tie_refuse : forall s t c e cur sh0 fr,
   is_cont c = true -> fr_me fr = t -> env_ok e -> coherent sh0 -> cont_closed (sh_m sh0) = false ->
   e_exc e CBody = Some XOrdinary -> e_own_started e = false ->
@@ -342,7 +355,9 @@ Theorem C16_tie_nl_start : forall s t e cur n fr,
     (match e_exc e CImpOpen with Some y => Exc y | None => Fin end, e_interf e CImpOpen (fr_ctx fr) (mkSh x n false), fr).
 Proof. exact tie_nl_start. Qed.
 
-(** Nextline.close: Imp.aclose first; Continuous.close after it and only if it returned *)
+(** Nextline.close: Imp.aclose first; Continuous.close after it and only if it returned; when
+    Imp.aclose raises (any class, cancellation included) nothing of Continuous changes,
+    `Nextline._closed` is reset and the exception re-raised *)
 Theorem C16_tie_nl_close_order : forall e cur sh fr,
   nl_started (sh_m sh) = true ->
   let sh0 := set_m sh (set_nl_closed (sh_m sh) true) in
@@ -351,10 +366,21 @@ Theorem C16_tie_nl_close_order : forall e cur sh fr,
   exec (prog MNlClose) e cur sh fr =
   if nl_closed (sh_m sh) then (Fin, sh, fr)
   else match e_exc e CImpClose with
-       | Some x => (Exc x, sh1, fr)
+       | Some XStuck => (Exc XStuck, sh1, fr)
+       | Some x => (Exc x, set_m sh1 (set_nl_closed (sh_m sh1) false), fr)
        | None => (Fin, close_sh sh1, fr)
        end.
 Proof. exact nl_close_exec. Qed.
+
+(** ... and when Continuous.close itself raises, the flag is reset as well *)
+Theorem C16_tie_nl_close_cont_raises : forall e cur sh fr,
+  nl_started (sh_m sh) = true -> nl_closed (sh_m sh) = false -> e_exc e CImpClose = None ->
+  let sh0 := set_m sh (set_nl_closed (sh_m sh) true) in
+  let sh1 := e_interf e CImpClose (fr_ctx fr) sh0 in
+  sh_item sh1 = true -> sh_cnt sh1 > 0 ->
+  exec (prog MNlClose) e cur sh fr =
+  (Exc XOrdinary, set_m sh1 (set_nl_closed (set_cont_closed (sh_m sh1) true) false), fr).
+Proof. exact nl_close_cont_raises. Qed.
 
 Theorem C16_tie_nl_close : forall s1 e cur sh fr,
   nl_started (sh_m sh) = true -> nl_closed (sh_m sh) = false -> e_exc e CImpClose = None ->
@@ -408,7 +434,10 @@ Proof. exact on_start_prompt_exec. Qed.
 Theorem C16_tie_on_finished : forall e cur sh fr,
   coherent sh ->
   exec (prog MOnFinished) e cur sh fr =
-  if fr_started fr then (Fin, disable_sh (set_m sh (unreg_m (sh_m sh) (fr_me fr) true)), fr)
+  if fr_started fr then
+    if has_plugin (sh_m sh) (fr_me fr) true
+    then (Fin, disable_sh (set_m sh (unreg_m (sh_m sh) (fr_me fr) true)), fr)
+    else (Exc XOrdinary, sh, fr)
   else (Fin, sh, fr).
 Proof. exact on_finished_exec. Qed.
 
@@ -433,7 +462,8 @@ Proof. exact writers. Qed.
 
 (** the published flag is `counter > 0` unless closed (then off) after __init__ + start,
     after disable, after close, and on every way out of `_requested` for all environments
-    whose interference keeps it *)
+    whose interference keeps it (a per-call postcondition under a rely condition; the
+    statement without rely condition, for all schedules, is [C16_tie_sys_flag]) *)
 Theorem C16_tie_flag_init_start : forall e cur sh fr,
   let sh0 := snd (fst (exec (prog MInit) e cur sh fr)) in
   flag_inv (snd (fst (exec (prog MStart) e cur sh0 fr))).
@@ -459,6 +489,60 @@ Example C16_tie_example_nonvacuous :
   rev (cpubs (trace (sh_m sh'))) = [true; true; true] /\ fr_ctx fr' = None /\
   env_ok ex_env /\ coherent ex_sh /\ counted ex_sh /\ flag_inv ex_sh /\ flag_inv sh'.
 Proof. exact ex_refused_nonvacuous. Qed.
+
+(** `async with continuous:` = start / close; PIN of the two read accessors *)
+Theorem C16_tie_aenter : forall e cur sh fr,
+  exec (prog MAenter) e cur sh fr = exec (prog MStart) e cur sh fr.
+Proof. exact aenter_exec. Qed.
+
+Theorem C16_tie_aexit : forall e cur sh fr,
+  exec (prog MAexit) e cur sh fr = exec (prog MClose) e cur sh fr.
+Proof. exact aexit_exec. Qed.
+
+Theorem C16_tie_accessors_pinned :
+  resolve MEnabled = ReturnLatest /\ resolve MSubscribeEnabled = ReturnSubscribe.
+Proof. exact accessors_pinned. Qed.
+
+(** WHOLE HISTORIES on the regenerated code (Life/ContSys.v): a task-pool system whose every
+    step is [exec] on a generated program -- a request is [LEnter] (the generator up to its
+    yield) and [LExit] (the WHOLE generator re-run from the state it was started in, in the
+    environment "the rest of the system has produced the current state, then the body returns
+    / raises r"), plus the on_start_run / on_finished hooks of a run, Continuous.close and
+    foreign events -- scheduled by an arbitrary label list.  The state handed to the body at
+    the yield is the one [LEnter] computes: *)
+Theorem C16_tie_sys_enter_state : forall sh fr,
+  coherent sh -> cont_closed (sh_m sh) = false ->
+  exec (prog MRequested) env_pass None sh fr =
+  (Fin, mkSh (entry_m (sh_m sh) (fr_me fr)) (sh_cnt sh + 1) false, after_with fr).
+Proof. exact enter_state. Qed.
+
+(** the invariant, by induction over ALL schedules: coherent, flag = counter > 0 unless closed
+    (then off), counter = number of registered plugins (>= once closed); every suspended
+    request was started open *)
+Theorem C16_tie_sys_inv : forall a b c d ls, SInv (srun (sys_init a b c d) ls).
+Proof. exact SInv_reachable. Qed.
+
+Theorem C16_tie_sys_flag : forall a b c d ls,
+  let sh := y_sh (srun (sys_init a b c d) ls) in
+  coherent sh /\
+  (cont_closed (sh_m sh) = false ->
+     sh_cnt sh = Z.of_nat (length (cont_plugins (sh_m sh))) /\
+     enabled_of (trace (sh_m sh)) = Some (nonempty (cont_plugins (sh_m sh)))) /\
+  (cont_closed (sh_m sh) = true -> enabled_of (trace (sh_m sh)) = Some false).
+Proof. exact sys_flag. Qed.
+
+(** non-vacuity: two requests refused in FIFO order (the history of seed C16-1), one accepted,
+    armed, finished, one pending across close and then cancelled *)
+Example C16_tie_sys_example :
+  let y1 := srun (sys_init 7 1 true false)
+              [LEnter 1 None; LEnter 2 None; LExit 1 (Some XOrdinary) false; LExit 2 (Some XOrdinary) false] in
+  let y2 := srun y1 [LEnter 3 None; LArm true 3; LExit 3 None false] in
+  let y3 := srun y2 [LFinished; LEnter 4 None; LClose; LExit 4 (Some XBaseOnly) false] in
+  (rev (cpubs (trace (sh_m (y_sh y1)))) = [false; true; true; true; false] /\ cont_plugins (sh_m (y_sh y1)) = [] /\ sh_cnt (y_sh y1) = 0) /\
+  (cont_plugins (sh_m (y_sh y2)) = [(3%nat, true)] /\ sh_cnt (y_sh y2) = 1 /\ enabled_of (trace (sh_m (y_sh y2))) = Some true) /\
+  (rev (cpubs (trace (sh_m (y_sh y3)))) = [false; true; true; true; false; true; false; true; false] /\
+   cont_plugins (sh_m (y_sh y3)) = [] /\ sh_cnt (y_sh y3) = 0 /\ sh_item (y_sh y3) = true /\ y_pend y3 = []).
+Proof. exact sys_example. Qed.
 
 Print Assumptions C16_cont_inv.
 Print Assumptions C16_at_most_one_started.
@@ -500,3 +584,11 @@ Print Assumptions C16_tie_flag_disable.
 Print Assumptions C16_tie_flag_close.
 Print Assumptions C16_tie_flag_requested.
 Print Assumptions C16_tie_example_nonvacuous.
+Print Assumptions C16_tie_nl_close_cont_raises.
+Print Assumptions C16_tie_aenter.
+Print Assumptions C16_tie_aexit.
+Print Assumptions C16_tie_accessors_pinned.
+Print Assumptions C16_tie_sys_enter_state.
+Print Assumptions C16_tie_sys_inv.
+Print Assumptions C16_tie_sys_flag.
+Print Assumptions C16_tie_sys_example.
